@@ -566,7 +566,7 @@ def run_check(prop: str, machines: list[str], tier: str, seed: int, out=sys.stdo
     )
     for k in sorted(known_hits):
         e = known_desc[k]
-        print(f"KNOWN-FINDING: property={prop} {e['id']} ({known_hits[k]} runs) {e['what']}", file=out)
+        print(f"KNOWN-FINDING: property={prop} {e['id']} ({known_hits[k]} hits) {e['what']}", file=out)
     for v, path, reproduced, lmin, lorig in replay_lines:
         print(f"  violation clause={v['clause']} signature={v['signature']} tape {lorig}->{lmin} fresh-replay={reproduced}", file=out)
         print(f"    {v['msg'][:800]}", file=out)
